@@ -38,6 +38,7 @@ class Conv:
         self.fname = fname
         self.line = 0
         self.file = None
+        self.src_lines = []
         self.decl_names = {}
         self.used_names = set()
 
@@ -158,8 +159,31 @@ class Conv:
             return []
         if k == 'OMPParallelForDirective':
             privates, clauses, loop = [], [], None
+            # clang 14 prints clauses without a kind: read the clause list from the pragma text
+            # of the real source line and cross-check it with the DeclRefExprs of the AST
+            import re
+            text = self.src_lines[line - 1] if 0 < line <= len(self.src_lines) else ''
+            k2 = line
+            while text.rstrip().endswith('\\') and k2 < len(self.src_lines):
+                text = text.rstrip()[:-1] + ' ' + self.src_lines[k2]
+                k2 += 1
+            if 'pragma' not in text or 'omp' not in text:
+                raise Unsupported('cannot locate the OpenMP pragma text at line %d of %s' % (line, self.fname))
+            for cl, arg in re.findall(r'(\w+)\s*\(([^)]*)\)', text.split('for', 1)[1] if 'for' in text else ''):
+                clauses.append(cl)
+                if cl == 'private':
+                    privates = [x.strip() for x in arg.split(',') if x.strip()]
+                elif cl not in ('schedule', 'num_threads'):
+                    raise Unsupported('OpenMP clause %s(%s) is outside the verified subset' % (cl, arg))
+            ast_refs = []
             for c in inner:
                 ck = c.get('kind')
+                if ck is None and c.get('inner') and all(d.get('kind') == 'DeclRefExpr' for d in c['inner']):
+                    self.enter(c)
+                    for d in c['inner']:
+                        self.enter(d)
+                        ast_refs.append(self.ref_name(d))
+                    continue
                 if ck == 'OMPPrivateClause':
                     self.enter(c)
                     for d in c.get('inner') or []:
@@ -189,6 +213,8 @@ class Conv:
                     self.skip(c)
             if loop is None:
                 raise Unsupported('OpenMP directive without a for loop (line %d)' % line)
+            if ast_refs and sorted(ast_refs) != sorted(privates):
+                raise Unsupported('private(...) of the pragma text %s and of the AST %s disagree (line %d)' % (privates, ast_refs, line))
             return [self.mk(cnodes.COmpFor, line, privates=privates, loop=loop, clauses=clauses)]
         # expression statement
         e = self.expr_entered(n, line)
@@ -365,6 +391,7 @@ def load_tu(program, fname):
     tree = clang_json(path, [cdir])
     tu = TU(fname)
     conv = Conv(tu, fname)
+    conv.src_lines = open(path).read().split('\n')
     for n in tree.get('inner', []):
         k = n.get('kind')
         line = conv.enter(n)
